@@ -39,7 +39,7 @@ CONFIG = dict(
     trivial=r"^(ok|-|noop|over|bad-op)?$",
     rule="cases = `reset` + ops on one module list (plain ModList, baseapp.App, or node/app.App driven through StartNode/StopNode with a launch mode of the harness; node cases cycle through service lists none / all configured / one missing from the `services:` map first, middle, last / all missing, so that StartServices runs its skip path inside the completion closure): (a) every path of every translated shipped Start/Stop body replayed as a scripted module at "
          "each position of a 3-module list; (b) exhaustive: every list length 0..5 (thorough 0..7) x failure position or none x every "
-         "synchronous/delayed mask x phase, delayed modules completed through another goroutine / a timer / directly; (b2) re-entrant callbacks: the start-completion callback issues Stop directly or through a goroutine it waits for, the stop-completion callback issues Start/Stop (only patterns that do not run under ModList.Filter's non-reentrant lock: module 0 completes later), n 1..4 x object x callback x failure position x delays; (b3) a module itself issues Stop/Start from inside its Start/Stop (directly, or by handing a Stop to another goroutine) at every position, phase, sync/delayed chain, on App and node; (b4) growing lists: a module registers a further module (AddModule) right before completing — from its delayed completion or synchronously in a chain outside Filter — at every position, and during a stop phase; node cases also cycle the launch-mode name (registered / empty / unregistered with a default launch func); (c) random cases from one PRNG "
+         "synchronous/delayed mask x phase, delayed modules completed through another goroutine / a timer / directly; (b2) re-entrant callbacks: the start-completion callback issues Stop directly or through a goroutine it waits for, the stop-completion callback issues Start/Stop (only patterns that do not run under ModList.Filter's non-reentrant lock: module 0 completes later), n 1..4 x object x callback x failure position x delays; (b3) a module itself issues Stop/Start from inside its Start/Stop (directly, or by handing a Stop to another goroutine) at every position, phase, sync/delayed chain, on App and node; (b4) growing lists: a module registers a further module (AddModule) right before completing — from its delayed completion or synchronously in a chain outside Filter — at every position, and during a stop phase; node cases also cycle the launch-mode name (registered / empty / unregistered with a default launch func); (b5) the real ClusterModule / WelcomeModule executed at every position of a node (clustering off: success; clustering on with a port-less own address: StartMember fails early, no etcd needed) against the outcome the translated bodies promise; (b6) delayed completions delivered by the application's own run service timer (GetTimerMgr().After) in both phases; (c) random cases from one PRNG "
          "(VERIF_SEED): length 0..6, App or plain ModList, scripts T/F/delayed/panic-before/panic-after, premature or repeated Start/Stop, and in "
          "`neg` cases double/late/stale completions. An op is non-trivial when its observation contains at least one log token "
          "(not ok / - / noop / over); distinct = distinct (op, observation) pairs",
